@@ -153,6 +153,16 @@ class KernelOracle:
                 diff = np.flatnonzero(xs != x)
                 if diff.size > 1:
                     raise core.Undecided("cwmh proposal changes more than one component")
+                # the proposed component is the recorded (symmetric) draw itself: a component that is some other function
+                # of the draw - rounded, clipped, cast - is a different mechanism than the one the ratio is computed for
+                dr = self._draws("normal")
+                if diff.size == 1 and dr and self.refs.get("proposal_is_default", True):
+                    v = as_vec(dr[-1][1])
+                    j = int(diff[0])
+                    prop_j = v[j] if v.size == x.size else (v[0] if v.size == 1 else None)
+                    if prop_j is not None and np.isfinite(prop_j) and not close(xs[j], prop_j, 1e-12):
+                        self.ctx.violate(PROP, "proposed_component_is_not_the_draw", self.sig(), component=j,
+                                         evaluated=float(xs[j]), drawn=float(prop_j))
             else:
                 # x* = x + kappa*xi with xi the recorded standard draw: symmetric random walk
                 dr = self._draws("randn") or self._draws("standard_normal") or self._draws("normal")
